@@ -332,3 +332,18 @@ def rep_visit_any(c):
 
 
 contract(REP, "Representor.visit_any", props=("C06", "C07"), group="representor")(rep_visit_any)
+
+
+# ----------------------------------------------------------------------------- the public entry point
+@contract(RINIT, "represent", props=("C06", "C07", "C16"), group="representor")
+def _represent_entry(c):
+    """represent(schema, **kwargs) (also repr(schema): Schema.__override__('__repr__', represent)) is the member
+    dispatch with the module's Representor, indent 0, kwargs handed on unchanged"""
+    ct = c.ct
+    Sx = c.sym("self")
+    kw = c.kwargs()
+    c.requires(S.is_schema(ct, Sx), "is-schema")
+    c.requires(z3.And(S.wf(Sx), S.reach(Sx)), "wf")
+    c.raises(props=("C06",))
+    c.returns("str")
+    c.ensures("text-of-the-dispatch", lambda r, post: r == M.StrV(rtext(Sx, z3.IntVal(0), kw)), ("C06", "C16"))
